@@ -345,4 +345,79 @@ example : Line.obsRecv.obs ((machine ⟨[13, 10], 3, fun _ => {}⟩).run init [.
 
 end LineReceiver
 
+/-! ## Two live connections of one receiver class (white-box mutation audit: state shared between connections)
+
+The statement's "reference framing of the stream" is per connection.  The models are pure functions of one
+connection's state, so interleaving the schedules of two connections changes nothing for either — stated here
+for every machine, every pair of states and every interleaving; the harness checks the same on the real
+classes (oracle clause `interference`), which is what exposes class-level / global mutable state. -/
+
+/-- Two live connections of one receiver class.  A joint schedule tags every operation with the connection
+    it is for (`true` = the first); each connection, as in `Machine.run`, ignores what arrives after its own
+    first close request. -/
+def runPair {σ : Type} (M : Machine σ) : σ → σ → List (Bool × Op) → (σ × List Ev) × (σ × List Ev)
+  | s₁, s₂, [] => ((s₁, []), (s₂, []))
+  | s₁, s₂, (true, op) :: rest =>
+    if M.closed s₁ then runPair M s₁ s₂ rest
+    else
+      let r := M.step s₁ op
+      let q := runPair M r.1 s₂ rest
+      ((q.1.1, r.2 ++ q.1.2), q.2)
+  | s₁, s₂, (false, op) :: rest =>
+    if M.closed s₂ then runPair M s₁ s₂ rest
+    else
+      let r := M.step s₂ op
+      let q := runPair M s₁ r.1 rest
+      (q.1, (q.2.1, r.2 ++ q.2.2))
+
+/-- the operations of a joint schedule addressed to one connection -/
+def opsFor (which : Bool) (ops : List (Bool × Op)) : List Op :=
+  (ops.filter (fun p => p.1 == which)).map (·.2)
+
+theorem run_closed {σ : Type} (M : Machine σ) (s : σ) (h : M.closed s = true) (ops : List Op) :
+    M.run s ops = (s, []) := by
+  cases ops with
+  | nil => rfl
+  | cons op ops => simp [Machine.run, h]
+
+/-- **no interference between connections**: in any interleaving of the schedules of two live connections
+    of a receiver, each connection ends in the state and delivers the events of its own schedule played alone. -/
+theorem pair_independent {σ : Type} (M : Machine σ) (ops : List (Bool × Op)) :
+    ∀ s₁ s₂, (runPair M s₁ s₂ ops).1 = M.run s₁ (opsFor true ops) ∧
+             (runPair M s₁ s₂ ops).2 = M.run s₂ (opsFor false ops) := by
+  induction ops with
+  | nil => intro s₁ s₂; simp [runPair, opsFor, Machine.run]
+  | cons p rest ih =>
+    intro s₁ s₂
+    obtain ⟨w, op⟩ := p
+    cases w with
+    | true =>
+      by_cases hc : M.closed s₁ = true
+      · have := ih s₁ s₂
+        simp only [runPair, hc, if_true]
+        refine ⟨?_, by simpa [opsFor] using this.2⟩
+        rw [this.1, run_closed M s₁ hc, run_closed M s₁ hc]
+      · have := ih (M.step s₁ op).1 s₂
+        simp only [runPair, hc]
+        simp [opsFor, Machine.run, hc] at this ⊢
+        simp [this.1, this.2]
+    | false =>
+      by_cases hc : M.closed s₂ = true
+      · have := ih s₁ s₂
+        simp only [runPair, hc, if_true]
+        refine ⟨by simpa [opsFor] using this.1, ?_⟩
+        rw [this.2, run_closed M s₂ hc, run_closed M s₂ hc]
+      · have := ih s₁ (M.step s₂ op).1
+        simp only [runPair, hc]
+        simp [opsFor, Machine.run, hc] at this ⊢
+        simp [this.1, this.2]
+
+/-- non-vacuity: a concrete interleaving of two Int8 connections, each holding a partial string while the other works -/
+example :
+    let M := IntN.machine ⟨1, 5, fun _ => {}⟩
+    let ops : List (Bool × Op) := [(true, .data [2, 97]), (false, .data [1]), (true, .data [98, 1]), (false, .data [120]),
+                                   (true, .data [99])]
+    (runPair M IntN.init IntN.init ops).1.2 = [Ev.str [97, 98], Ev.str [99]] ∧
+    (runPair M IntN.init IntN.init ops).2.2 = [Ev.str [120]] := by decide
+
 end TwistedProps.C16
